@@ -2,7 +2,7 @@
 (* step st kind inputs = (st', expected observations).                                   *)
 (* Kinds flagged by is_monitor have inputs that are *observed* on the implementation and  *)
 (* a constant expected output: a mismatch there is a property violation on the real code. *)
-From VD Require Import Base.Words Model.Layout Model.Queue Extract.QueueIO Extract.QueueMon Extract.OwningIO Extract.MmioIO Model.PciBus Extract.PciBusIO Extract.PciIO Model.Blk Extract.BlkIO Model.Console Extract.ConsoleIO Extract.ConfigIO Extract.NetIO Extract.ConnMgrIO Extract.VsockIO Extract.InitIO Model.Gpu Extract.GpuIO Extract.MiscIO.
+From VD Require Import Base.Words Model.Layout Model.Queue Extract.QueueIO Extract.QueueMon Extract.OwningIO Extract.MmioIO Model.PciBus Extract.PciBusIO Extract.PciIO Model.Blk Extract.BlkIO Model.Console Extract.ConsoleIO Extract.ConfigIO Extract.NetIO Extract.ConnMgrIO Extract.VsockIO Extract.InitIO Model.Gpu Extract.GpuIO Extract.MiscIO Model.Sound Extract.SoundIO.
 (* C09: required without Import (qualified use below), so that its short names shadow nothing here *)
 From VD Require Extract.TeardownIO.
 
@@ -14,6 +14,7 @@ Inductive mstate :=
 | MBlk (b : option bstate)
 | MConsole (c : option cio)
 | MNet (n : option netst)
+| MSound (s : option sstate)
 | MConnMgr (c : option cmio)
 | MVsock (s : option vstate)
 | MTeardown (t : option TeardownIO.tio)
@@ -27,7 +28,7 @@ Definition bad : list N := [77777].
 Definition is_diag (k : N) : bool := (k =? 140).
 
 Definition is_monitor (k : N) : bool :=
-  (k =? 1) || (k =? 2) || (k =? 612) || ((150 <=? k) && (k <? 170)) || (k =? 1950) || (k =? 1951) || mmio_is_monitor k || pci_is_monitor k || blk_is_monitor k || console_is_monitor k || config_is_monitor k || net_is_monitor k || connmgr_is_monitor k || vsock_is_monitor k || TeardownIO.teardown_is_monitor k || init_is_monitor k || gpu_is_monitor k || misc_is_monitor k || pcit_is_monitor k.
+  (k =? 1) || (k =? 2) || (k =? 612) || ((150 <=? k) && (k <? 170)) || (k =? 1950) || (k =? 1951) || mmio_is_monitor k || pci_is_monitor k || blk_is_monitor k || console_is_monitor k || config_is_monitor k || net_is_monitor k || connmgr_is_monitor k || vsock_is_monitor k || TeardownIO.teardown_is_monitor k || init_is_monitor k || gpu_is_monitor k || misc_is_monitor k || pcit_is_monitor k || sound_is_monitor k.
 
 Definition dir_reads (d : N) : bool := (d =? 0) || (d =? 2).
 Definition dir_writes (d : N) : bool := (d =? 1) || (d =? 2).
@@ -102,6 +103,11 @@ Definition step (st : mstate) (k : N) (ins : list N) : mstate * list N :=
   else if (1100 <=? k) && (k <? 1200) then
     (let t := match st with MPci t => t | _ => None end in
      let '(t', o) := pcit_step t k ins in (MPci t', o))
+  (* ---- C20, sound driver (kinds 2034..2066) ---- *)
+  else if (2034 <=? k) && (k <=? 2066) then
+    (if sound_is_monitor k then (st, sound_monitor k ins) else
+     let s := match st with MSound s => s | _ => None end in
+     let '(s', o) := sound_step s k ins in (MSound s', o))
   else if k =? 1950 then (st, [b2n (mon_owning ins)])
   else if k =? 1951 then (st, [b2n (mon_input ins)])
   else if (1900 <=? k) && (k <? 1950) then
